@@ -224,6 +224,9 @@ func Build(a *model.Claims) (psatoken.IClaims, error) {
 	if a.Canon == extprof.ExtP2Name {
 		return &extprof.ExtP2Claims{P2Claims: *c}, nil
 	}
+	if a.Canon == extprof.ExtStrictName {
+		return &extprof.ExtStrictClaims{P2Claims: *c}, nil
+	}
 	return c, nil
 }
 
